@@ -298,11 +298,11 @@ func genEvCase(rng *simrt.Rand, tier string, o evGenOpts) *Case {
 		perf.DataChan = 1 + rng.Intn(4)
 		perf.WindowOut = len(ops) + 64
 		if rng.Bool(0.25) {
-			// a block timeout of seconds with a tiny output buffer behind a slow sink: no hand-off
+			// a block timeout of 3 s with a tiny output buffer behind a slow sink: no hand-off
 			// ever waits that long (the sink's delay is far shorter and the clock is not forced
 			// forward in these runs), so nothing may be dropped
 			shortBlock = true
-			perf.BlockTimeout = int64(2 * time.Second)
+			perf.BlockTimeout = int64(3 * time.Second)
 			perf.WindowOut = 1
 		}
 	} else {
@@ -550,10 +550,12 @@ func evRun(e *Env) (map[string]int64, bool) {
 		prev = len(in.Deliveries)
 	}
 	if st["input_dropped_count"] > 0 || windowDropped(st) > 0 {
-		if e.C.xBool("short_block") {
+		if e.C.xBool("short_block") && windowDropped(st) > 0 {
+			// (input rows are another matter: Emit waits while the pipeline handles a whole row,
+			// which can be many window results times the sink's delay — such drops are legitimate)
 			e.Probe("short_block_timeout")
-			e.Violate(e.C.Prop+"/block-dropped-before-timeout", in.Spec.Perf.Strategy, "block strategy with a %v timeout dropped (input %d, window results %d) although no hand-off can have waited that long: the slowest consumer step takes %v and the clock only moved while everything was waiting",
-				time.Duration(in.Spec.Perf.BlockTimeout), st["input_dropped_count"], windowDropped(st), time.Duration(in.Spec.Sinks[0].D))
+			e.Violate(e.C.Prop+"/block-dropped-before-timeout", in.Spec.Perf.Strategy, "block strategy with a %v timeout dropped %d window result(s) although no hand-off of a result can have waited that long: the consumer takes one result at a time, its slowest step takes %v, and the clock only moved while everything was waiting",
+				time.Duration(in.Spec.Perf.BlockTimeout), windowDropped(st), time.Duration(in.Spec.Sinks[0].D))
 			return nil, false
 		}
 		e.R.Discard = fmt.Sprintf("overflow drop (input_dropped=%d window dropped=%d): not judged", st["input_dropped_count"], windowDropped(st))
